@@ -248,9 +248,25 @@ func (h *vH) apply(line string) (string, bool) {
 			}
 			opts = append(opts, IndexWithChildren(cs))
 		}
+		var named []Descriptor
+		if len(opts) > 0 {
+			conf := indexConf{}
+			opts[0](&conf)
+			named = conf.children
+		}
 		h.idx.AddDesc(d.desc(), opts...)
 		if d.nl == 0 && d.tag != 0 {
 			h.tagOwner[d.tag] = d.dig
+		}
+		// an insertion made with the children option records them: the inserted digest and every named child are found by
+		// digest afterwards (at top level or as child records), whatever the index held before
+		if _, err := h.idx.GetDesc(d.desc().Digest.String()); err != nil && d.dig != 0 {
+			h.flag("get-digest-iff", fmt.Sprintf("digest %d was just inserted and is not found", d.dig))
+		}
+		for _, c := range named {
+			if _, err := h.idx.GetDesc(c.Digest.String()); err != nil && c.Digest != "" {
+				h.flag("get-digest-iff", fmt.Sprintf("child %d named by the insertion of %d is not found by digest", vDigID[c.Digest], d.dig))
+			}
 		}
 		h.checkInv()
 		return vState(h.idx), true
